@@ -74,7 +74,7 @@ def run(ctx):
         for b in ctx.bodies_of(x):
             for bb, t in b.calls(r"::(remove|remove_entry|swap_remove|shift_remove|retain|clear|pop_first|pop_last|split_off|drain)$"):
                 if any("@Delta" in a.proj and ".substate_updates" in a.proj for a in b.origins(t["args"][0])):
-                    shrink.append((t["f"].rsplit("::", 1)[1], b.loc(bb)))
+                    shrink.append((t["f"].rsplit("::", 1)[-1], b.loc(bb)))
             for bb, t in b.calls(r"::(extend|insert)$"):
                 if any("@Delta" in a.proj and ".substate_updates" in a.proj for a in b.origins(t["args"][0])):
                     grows += 1
